@@ -311,7 +311,7 @@ fn compositions(len: usize, idx: usize) -> Vec<usize> {
 }
 
 fn handle_programs(ctx: &Ctx, acc_total: &mut Acc) {
-    let max_toks = if ctx.thorough() { 4 } else { 3 };
+    let max_toks = if ctx.thorough() { 5 } else { 3 };
     let max_len = 6usize;
     // enumerate (len, program) pairs; inside: all chunkings x 2 finals
     let mut work: Vec<(usize, usize, usize)> = vec![]; // (len, ntoks, index)
@@ -366,8 +366,8 @@ fn handle_programs(ctx: &Ctx, acc_total: &mut Acc) {
 }
 
 pub fn run(ctx: &Ctx) -> i32 {
-    let n_mixed = ctx.size(12000, 400000);
-    let n_emph = ctx.size(12000, 400000);
+    let n_mixed = ctx.size(12000, 2000000);
+    let n_emph = ctx.size(12000, 2000000);
     let seed = ctx.seed;
     let opts = GenOpts::common();
     let mut acc = crate::par::run(n_mixed + n_emph, 16, |i, acc| {
@@ -425,9 +425,9 @@ pub fn run(ctx: &Ctx) -> i32 {
         transparency(&b, &Mode::Reader(Sched::Fixed(65536)), Fmt::Json, "just_under_2mib", &mut acc);
     }
     handle_programs(ctx, &mut acc);
-    let rule = format!("(a,b) {} mixed corpus inputs + {} inputs aimed at the detection trials (MessagePack collection markers followed by every kind of truncation, text starting with U+0700-U+07FF and other two-byte characters, inputs several formats accept, truncated seeds, two inputs just under 2 MiB), each as a slice and under 4 read schedules, rotating target; (d) EVERY program of up to {} tokens over {{new borrow, read(n), prefix(n) : n in 0..=len+1}} x every data size 0..=6 x EVERY chunking of the source x both ways of taking ownership, plus the same programs on slice handles; distinct non-trivial = distinct inputs plus distinct programs of >= 2 tokens on >= 2 bytes", n_mixed, n_emph, if ctx.thorough() { 4 } else { 3 });
+    let rule = format!("(a,b) {} mixed corpus inputs + {} inputs aimed at the detection trials (MessagePack collection markers followed by every kind of truncation, text starting with U+0700-U+07FF and other two-byte characters, inputs several formats accept, truncated seeds, two inputs just under 2 MiB), each as a slice and under 4 read schedules, rotating target; (d) EVERY program of up to {} tokens over {{new borrow, read(n), prefix(n) : n in 0..=len+1}} x every data size 0..=6 x EVERY chunking of the source x both ways of taking ownership, plus the same programs on slice handles; distinct non-trivial = distinct inputs plus distinct programs of >= 2 tokens on >= 2 bytes", n_mixed, n_emph, if ctx.thorough() { 5 } else { 3 });
     let mut extra = serde_json::Map::new();
-    extra.insert("handle_programs_exhaustive_up_to_tokens".into(), json!(if ctx.thorough() { 4 } else { 3 }));
+    extra.insert("handle_programs_exhaustive_up_to_tokens".into(), json!(if ctx.thorough() { 5 } else { 3 }));
     ev::finish(
         Finish { ctx, level: "exploration", rule, assumptions: vec!["the handle model is non-deterministic about how many bytes a read returns (1..=n) and how long a prefix is (>= min(n, len))".into(), "the harness reader injects no I/O errors in this check (C12 does)".into()], extra, exhaustive: false, min_distinct: 5000, must_reach: vec![("handle_programs_run".into(), 100000), ("explicit_vs_detected_compared".into(), 10000), ("detected_none".into(), 100), ("INPUT_READER_CHAINED_PREFIX".into(), 1000), ("INPUT_SLICE_FROM_READER_EOF".into(), 1000)] },
         acc,
